@@ -151,6 +151,10 @@ def insert_loop_contracts(body, loops, fired, name):
         want = frozen[str(o)]
         rank = sum(1 for k in range(o) if frozen.get(str(k)) == want) if all(str(k) in frozen for k in range(o)) else 0
         same = [i for i, (_, h) in enumerate(heads) if h == want]
+        if len(same) <= rank and len(heads) == len(frozen):
+            # same number of loops as when the contract was written: the header was edited in place (e.g. a changed bound) -- the contract stays
+            # with the loop at its position, and a wrong bound then fails the contract instead of hiding behind a slicer error
+            target[o] = o; fired['R-loop.by_position'] = fired.get('R-loop.by_position', 0) + 1; continue
         if len(same) <= rank: raise SliceError('%s: the loop `%s` that carries loop contract %d is no longer in the function (needs a new contract; not a violation)' % (name, want[:80], o))
         target[o] = same[rank]
     out = []; last = 0
